@@ -156,6 +156,7 @@ func runC20(c *core.Ctx) {
 	c.Rule("R2", "ValidTenantID accepts ⇔ all bytes valid ∧ len ≤ max ∧ not '.'/'..'", 2)
 	c.Rule("R3", "resolver entry points return only validated, metadata-trimmed, normalised identifiers; every further identifier is compared", 7)
 	c.Rule("R7", "one resolution path: identifiers are validated only inside the three analysed resolvers, and every other entry point answers with a resolver's result unchanged", 5)
+	c.Rule("R8", "NormalizeTenantIDs sorts and removes every repetition (a recognised compaction idiom: slices.Compact, or the read-index/write-index loop)", 1)
 	c.Rule("R5", "transport: same header/context keys on both sides, values forwarded unchanged", 6)
 	c.Rule("R6", "no default tenant: handlers reachable only after successful extraction; extraction fails when the identifier is absent", 8)
 	tp := c.Prog.Pkg("tenant")
@@ -216,6 +217,7 @@ func runC20(c *core.Ctx) {
 	// ---- R3
 	c20Resolvers(c, tp)
 	c20SinglePath(c, tp)
+	c20Normalize(c, tp)
 	// ---- R5, R6
 	c20Transport(c, up, mp)
 }
@@ -868,5 +870,114 @@ func c20SinglePath(c *core.Ctx, tp *packages.Package) {
 			}
 		}
 		c.Check(succ > 0 && len(bad) == 0, "R7", "func="+e.fn+":delegates", f.Pos(), fmt.Sprintf("%d successful returns, each the analysed resolver's answer for the unmodified input; others: %v", succ, bad), succ)
+	}
+}
+
+// c20Normalize (R8): every multi-tenant resolver ends in NormalizeTenantIDs, which must return the sorted
+// list without repetitions for any number of repetitions. Two formulations are recognised — anything else
+// is undecided: (a) `slices.Compact` of the sorted slice; (b) the two-index compaction: a loop whose read
+// index visits every position from 1, copies x[in] to x[out] and advances out exactly when x[in] differs
+// from x[in-1], and the result is x[:out]. Deleting from the slice while a loop index walks it is neither.
+func c20Normalize(c *core.Ctx, tp *packages.Package) {
+	fn := an.FindFunc(tp, "NormalizeTenantIDs")
+	if fn == nil {
+		c.Miss("R8", "func=NormalizeTenantIDs", "not found")
+		return
+	}
+	c.Analysed(fn.String())
+	g := fn.Graph()
+	var sortCall ast.Node
+	for _, call := range fn.Calls(false) {
+		if (call.Is("sort", "Strings") || call.Is("slices", "Sort")) && len(call.Expr.Args) == 1 {
+			if id, ok := an.Unparen(call.Expr.Args[0]).(*ast.Ident); ok && fn.ObjOf(id) == types.Object(fn.Obj.Type().(*types.Signature).Params().At(0)) {
+				sortCall = call.Expr
+			}
+		}
+	}
+	for _, call := range fn.Calls(false) {
+		if call.Is("slices", "Delete") || call.Is("slices", "DeleteFunc") {
+			c.Viol("R8", "func=NormalizeTenantIDs", call.Expr.Pos(), "elements are deleted from the slice while it is being walked: after a deletion the element that moved into the current position is not compared (runs of three or more survive)")
+			return
+		}
+	}
+	if sortCall == nil {
+		c.Viol("R8", "func=NormalizeTenantIDs", fn.Pos(), "the identifiers are not sorted (sort.Strings / slices.Sort on the parameter)")
+		return
+	}
+	// (a)
+	okA := false
+	for _, b := range g.Blocks {
+		if r := an.ReturnOf(b); r != nil && len(r.Results) == 1 && fn.Canon(r.Results[0]) == "slices.Compact(p0)" && g.NodeBefore(sortCall, r) {
+			okA = true
+		}
+	}
+	// (b)
+	okB := false
+	var out types.Object
+	fn.InspectShallow(func(n ast.Node) bool {
+		is, ok := n.(*ast.IfStmt)
+		if !ok || is.Else != nil {
+			return true
+		}
+		be, ok := an.Unparen(is.Cond).(*ast.BinaryExpr)
+		if !ok || be.Op != token.NEQ {
+			return true
+		}
+		xi, ok1 := an.Unparen(be.X).(*ast.IndexExpr)
+		yi, ok2 := an.Unparen(be.Y).(*ast.IndexExpr)
+		if !ok1 || !ok2 || fn.Canon(xi.X) != "p0" || fn.Canon(yi.X) != "p0" {
+			return true
+		}
+		in, isID := an.Unparen(xi.Index).(*ast.Ident)
+		if !isID || types.ExprString(yi.Index) != in.Name+" - 1" {
+			return true
+		}
+		copied, advanced := false, false
+		for _, st := range is.Body.List {
+			switch x := st.(type) {
+			case *ast.AssignStmt:
+				if len(x.Lhs) == 1 && len(x.Rhs) == 1 {
+					l, lok := x.Lhs[0].(*ast.IndexExpr)
+					r, rok := an.Unparen(x.Rhs[0]).(*ast.IndexExpr)
+					if lok && rok && fn.Canon(l.X) == "p0" && fn.Canon(r.X) == "p0" && types.ExprString(r.Index) == in.Name {
+						if oid, ok := l.Index.(*ast.Ident); ok {
+							out = fn.ObjOf(oid)
+							copied = true
+						}
+					}
+				}
+			case *ast.IncDecStmt:
+				if id, ok := x.X.(*ast.Ident); ok && x.Tok == token.INC && out != nil && fn.ObjOf(id) == out {
+					advanced = true
+				}
+			}
+		}
+		// the read index walks 1..len-1 in a for loop that contains this if
+		loop, _ := loopOf(fn, is).(*ast.ForStmt)
+		if copied && advanced && loop != nil && len(is.Body.List) == 2 {
+			if init, ok := loop.Init.(*ast.AssignStmt); ok && len(init.Rhs) == 1 && types.ExprString(init.Rhs[0]) == "1" {
+				if post, ok := loop.Post.(*ast.IncDecStmt); ok && post.Tok == token.INC && types.ExprString(post.X) == in.Name {
+					okB = true
+				}
+			}
+		}
+		return true
+	})
+	if okB {
+		okB = false
+		for _, b := range g.Blocks {
+			if r := an.ReturnOf(b); r != nil && len(r.Results) == 1 {
+				if sl, ok := an.Unparen(r.Results[0]).(*ast.SliceExpr); ok && fn.Canon(sl.X) == "p0" && sl.High != nil {
+					if hid, ok := sl.High.(*ast.Ident); ok && fn.ObjOf(hid) == out && (sl.Low == nil || types.ExprString(sl.Low) == "0") {
+						okB = true
+					}
+				}
+			}
+		}
+	}
+	if okA || okB {
+		c.Hold("R8", "func=NormalizeTenantIDs", fn.Pos(), fmt.Sprintf("sorted, then compacted by %s", map[bool]string{true: "slices.Compact", false: "the read-index/write-index loop (copy and advance ⇔ differs from the predecessor; result x[:out])"}[okA]), 1)
+	} else {
+		c.Undec("R8", "func=NormalizeTenantIDs", fn.Pos(), "the de-duplication is neither slices.Compact of the sorted slice nor the two-index compaction loop")
 	}
 }
